@@ -490,10 +490,31 @@ impl Receiver {
             return Ok(None);
         }
 
-        // The message following a cancelled one has already been started by recv_chunk.
+        // The message following a cancelled one has already been started by recv_chunk,
+        // which stashed its first chunk. Go on with that message like with any other.
         if self.restarted {
             self.restarted = false;
-            return Ok(Some(Received::Chunks));
+
+            if let Receiving::Chunks { mut chunks, completed } = mem::take(&mut self.receiving) {
+                let stashed = if chunks.len() == 1 { chunks.pop_front() } else { None };
+                match stashed {
+                    Some(chunk) => {
+                        let mut data_buf = DataBuf::new();
+                        match data_buf.try_push(chunk, self.max_data_size) {
+                            Ok(()) if completed => return Ok(Some(Received::Data(data_buf))),
+                            Ok(()) => self.receiving = Receiving::Data(data_buf),
+                            Err(chunk) => {
+                                self.receiving = Receiving::Chunks { chunks: vec![chunk].into(), completed };
+                                return Ok(Some(Received::Chunks));
+                            }
+                        }
+                    }
+                    None => {
+                        self.receiving = Receiving::Chunks { chunks, completed };
+                        return Ok(Some(Received::Chunks));
+                    }
+                }
+            }
         }
 
         loop {
